@@ -98,6 +98,8 @@ fn contains_return(e: &E) -> bool {
         E::Return(_) => true,
         E::Var(_) | E::Int(..) | E::Bool(_) | E::Unit | E::Const(_) | E::NoneE | E::Panic | E::ErrE(_) => false,
         E::Tuple(v) | E::Ctor(_, _, v) | E::Call(_, v, _) | E::Method(_, v, _) => v.iter().any(contains_return),
+        E::StructLit(_, fs) => fs.iter().any(|(_, x)| contains_return(x)),
+        E::StructUpd(a, _, b) => contains_return(a) || contains_return(b),
         E::TupleField(x, _, _) | E::Field(x, _) | E::SomeE(x) | E::Unwrap(x) | E::OkOr(x, _) | E::DebugAssert(x) | E::Assert(x) | E::OkE(x) | E::Try(x) | E::Neg(x, _) | E::Not(x, _) | E::Cast(x, _, _) | E::TryInto(x, _, _, _) => contains_return(x),
         E::Bin(_, a, b, _, _) | E::And(a, b) | E::Or(a, b) | E::UnwrapOr(a, b) | E::IsSomeAnd(a, _, b) | E::Let(_, a, b) => contains_return(a) || contains_return(b),
         E::If(c, t, f) => contains_return(c) || contains_return(t) || contains_return(f),
@@ -198,6 +200,8 @@ impl Lower {
         Some(match e {
             E::Var(_) | E::Int(..) | E::Bool(_) | E::Unit | E::Const(_) | E::NoneE => (vec![], false),
             E::Tuple(v) | E::Ctor(_, _, v) => (v.iter().collect(), false),
+            E::StructLit(_, fs) => (fs.iter().map(|(_, x)| x).collect(), false),
+            E::StructUpd(a, _, b) => (vec![&**a, &**b], false),
             E::TupleField(x, _, _) | E::Field(x, _) | E::SomeE(x) | E::Not(x, _) | E::Cast(x, _, _) | E::TryInto(x, _, _, _) => (vec![&**x], false),
             E::Method(_, v, _) => (v.iter().collect(), false),
             E::UnwrapOr(a, b) => (vec![&**a, &**b], false),
@@ -228,6 +232,11 @@ impl Lower {
                     format!("({}.{} {})", en, vn, a.join(" "))
                 }
             }
+            E::StructLit(name, fs) => {
+                let items: Vec<String> = fs.iter().zip(a.iter()).map(|((f, _), v)| format!("{} := {}", f, v)).collect();
+                format!("({{ {} }} : {})", items.join(", "), name)
+            }
+            E::StructUpd(_, f, _) => format!("{{ {} with {} := {} }}", a[0], f, a[1]),
             E::TupleField(_, i, n) => format!("{}{}", a[0], tuple_proj(*i, *n)),
             E::Field(_, f) => format!("{}.{}", a[0], f),
             E::SomeE(_) => format!("(some {})", a[0]),
